@@ -2636,7 +2636,62 @@ def triples_source(prog: Program) -> RuleResult:
     return res
 
 
+# ---------------------------------------------------------------------------
+# COMBINATOR-TOTAL
+
+
+def combinator_total(prog: Program) -> RuleResult:
+    res = RuleResult(
+        "COMBINATOR-TOTAL",
+        "a combinator handed to `Entry.combine` prices every pair of retained candidates the same way: the local "
+        "function or lambda has a single, unconditional `return Candidate(...)` - no branch that answers an infinite "
+        "or different candidate for some pairs (the aggregates were already restricted to the species that matter; a "
+        "second filter inside the combinator is a pruning argument about pairs)",
+    )
+    n = 0
+    for modname in ("compute.reconciliation", "compute.super_reconciliation", "compute.unordered_super_reconciliation"):
+        mod = prog.module(modname)
+        for qual, fn in prog.defs(modname).items():
+            if not isinstance(fn, FuncNode):
+                continue
+            names = set()
+            for call in walk_no_nested(fn):
+                if isinstance(call, ast.Call) and isinstance(call.func, ast.Attribute) and call.func.attr == "combine" and len(call.args) >= 2 and isinstance(call.args[1], ast.Name):
+                    names.add(call.args[1].id)
+            for name in sorted(names):
+                local = [sub for sub in walk_no_nested(fn) if isinstance(sub, FuncNode) and sub.name == name]
+                if not local:
+                    # bound from a factory: `name = factory(cost)` with `def factory(c): return lambda l, r: Candidate(...)`
+                    binds = [st for st in walk_no_nested(fn) if isinstance(st, ast.Assign) and any(isinstance(t, ast.Name) and t.id == name for t in st.targets) and isinstance(st.value, ast.Call)]
+                    for st in binds:
+                        callee = resolve_callee(prog, mod, st.value.func)
+                        cands_ = [callee[1]] if callee and isinstance(callee[1], FuncNode) else [sub for sub in walk_no_nested(fn) if isinstance(sub, FuncNode) and sub.name == dotted(st.value.func)]
+                        for factory in cands_:
+                            n += 1
+                            construct = f"{modname}:{qual}/combinator[{name}]/total"
+                            lam_bad = [b for b in ast.walk(factory) if isinstance(b, (ast.If, ast.IfExp)) ]
+                            if lam_bad:
+                                res.fail(construct, f"the combinator built by `{factory.name}` answers differently for some pairs of candidates (`{short(lam_bad[0], 70)}`)", mod, lam_bad[0])
+                            else:
+                                res.ok(construct, f"built by `{factory.name}`: one unconditional candidate")
+                    continue
+                n += 1
+                comb = local[0]
+                construct = f"{modname}:{qual}/combinator[{name}]/total"
+                rets = [r for r in walk_no_nested(comb) if isinstance(r, ast.Return)]
+                branches = [b for b in walk_no_nested(comb) if isinstance(b, (ast.If, ast.IfExp, ast.For, ast.While, ast.Try))]
+                if len(rets) == 1 and not branches:
+                    res.ok(construct, "one unconditional return")
+                else:
+                    where = branches[0] if branches else rets[1]
+                    res.fail(construct, f"the combinator `{name}` answers differently for some pairs of candidates (`{short(where, 70)}`): pairs are discarded after the aggregates were formed", mod, where)
+    if n < 3:
+        raise AnalysisError(f"COMBINATOR-TOTAL: only {n} local combinators found")
+    return res
+
+
 RULES = {
+    "COMBINATOR-TOTAL": combinator_total,
     "TRIPLES-SOURCE": triples_source,
     "CHAINED-ASSIGN-ORDER": chained_assign_order,
     "PROXY-UPDATE-GATE": proxy_update_gate,
